@@ -313,6 +313,22 @@ class Verifier:
                 res.status = "stale"
                 res.message = f"contract names loop {max(con.loops)} but the function has {nloops} loops"
                 return res
+            for nm in con.options.get("immutable_sets", ()):
+                # syntactic guard of the deterministic-membership assumption: the function never calls a mutator on the name,
+                # never stores into it and never passes it on
+                for n in ast.walk(fn):
+                    bad = None
+                    if isinstance(n, ast.Call) and isinstance(n.func, ast.Attribute) and isinstance(n.func.value, ast.Name) and n.func.value.id == nm \
+                            and n.func.attr in ("add", "remove", "discard", "update", "pop", "clear", "difference_update", "intersection_update", "append", "extend", "insert", "__setitem__", "setdefault"):
+                        bad = f"calls {nm}.{n.func.attr}()"
+                    if isinstance(n, (ast.Subscript, ast.Attribute)) and isinstance(getattr(n, "ctx", None), (ast.Store, ast.Del)) and isinstance(n.value, ast.Name) and n.value.id == nm:
+                        bad = f"stores into {nm}"
+                    if isinstance(n, ast.AugAssign) and isinstance(n.target, ast.Name) and n.target.id == nm:
+                        bad = f"augmented assignment to {nm}"
+                    if bad:
+                        res.status = "stale"
+                        res.message = f"contract declares {nm!r} an immutable set but the function {bad} (line {n.lineno})"
+                        return res
             pending = [list(p) for p in (prefixes if prefixes is not None else [[]])]
             covered = set()
             while pending:
